@@ -28,9 +28,8 @@ impl FlowSet {
 //@ fn expanded variable_versions::v9 /impl<'nom> FlowSet/ parse_be
 //@   result: r
 //@   generics: <'nom>
-//@   prerules: R15
+//@   prerules: R30 R15
 //@   rules: R7
-//@   closure 0: p | -> (o: FlowSetBody) ensures o == p.1
 //@   before "match ({ let i = __mr_o1;": proof {
 //@       let b = orig_i@;
 //@       assert(__mr_in@ == b.subrange(4, b.len() as int));
